@@ -199,11 +199,14 @@ class _LT:
 
 # ------------------------------------------------------------------------------ scheduler
 class Scheduler:
-    def __init__(self, policy, max_steps=20000, trace_codes=(), observer=None, line_filter=None):
+    def __init__(self, policy, max_steps=20000, trace_codes=(), observer=None, line_filter=None, opcode_level=False):
         self.policy = policy
         self.max_steps = max_steps
         self.trace_codes = frozenset(trace_codes)
         self.line_filter = line_filter  # optional predicate (code, lineno) -> bool
+        # opcode_level: also yield between the BYTECODES of the traced code objects (a thread can then be
+        # preempted inside one source line, e.g. between the load and the store of `x.n += 1`)
+        self.opcode_level = opcode_level
         self.observer = observer
         self.shim = Shim(self)
         self.result = Result()
@@ -272,6 +275,8 @@ class Scheduler:
     # -- tracing
     def _gtrace(self, frame, event, arg):
         if frame.f_code in self.trace_codes:
+            if self.opcode_level:
+                frame.f_trace_opcodes = True
             return self._ltrace
         return None
 
@@ -279,6 +284,9 @@ class Scheduler:
         if event == "line" and not self.aborting:
             if self.line_filter is None or self.line_filter(frame.f_code, frame.f_lineno):
                 self.yield_point("line", (frame.f_code.co_name, frame.f_lineno))
+        elif event == "opcode" and self.opcode_level and not self.aborting:
+            if self.line_filter is None or self.line_filter(frame.f_code, frame.f_lineno):
+                self.yield_point("line", (frame.f_code.co_name, frame.f_lineno, frame.f_lasti))
         return self._ltrace
 
     # -- thread body
